@@ -4,6 +4,10 @@ go 1.26
 
 require github.com/kercylan98/vivid v0.0.0
 
-require github.com/google/uuid v1.6.0 // indirect
+require (
+	github.com/google/uuid v1.6.0 // indirect
+	github.com/reugn/go-quartz v0.15.2 // indirect
+	golang.org/x/sync v0.19.0 // indirect
+)
 
 replace github.com/kercylan98/vivid => /repo
